@@ -50,7 +50,7 @@ def _case(draw):
     if ns % 12 == 0 and draw(st.integers(0, 2)) > 0:
         ns += draw(st.integers(1, 11))  # two cases in three: not a whole number of LF samples
     spec["ns"] = ns
-    return {"spec": spec, "w": [w1, w2], "content_seed": draw(st.integers(0, 2 ** 31)), "cbin_in": draw(st.integers(0, 3)) == 0,
+    return {"debug_log": draw(st.sampled_from([False, False, False, True])), "spec": spec, "w": [w1, w2], "content_seed": draw(st.integers(0, 2 ** 31)), "cbin_in": draw(st.integers(0, 3)) == 0,
             # the second window size is processed by the SAME converter object (init_params called again; NP2.4: into new
             # folders through extra=, NP2.1: overwrite=True) instead of a fresh converter in a fresh directory
             "same_converter": draw(st.booleans()), "stem": draw(st.sampled_from(np2.STEMS))}
@@ -71,6 +71,16 @@ def _nwin(ns, w):
 
 
 def run_case(case, ctx):
+    if case.get("debug_log"):
+        # process state: logging switched on at DEBUG level (logging.basicConfig(level=logging.DEBUG) in the calling script)
+        from vp.core import debug_logging
+        ctx.label("debug_logging_on")
+        with debug_logging():
+            return _run_case(case, ctx)
+    return _run_case(case, ctx)
+
+
+def _run_case(case, ctx):
     sg, npx = sut.spikeglx(), sut.neuropixel()
     spec = case["spec"]
     nc, nap, ns = gm.n_channels(spec), spec["n"], spec["ns"]
